@@ -217,7 +217,7 @@ theorem copyNodeUp_eff (p : Path) (m : MNode) (st : Node) :
   rw [hst] at hvis
   have := copyNodeUp_spec p s hc
   cases hres : copyNodeUp p s with
-  | err e s' => rw [hres] at this; exact this
+  | err e s' => rw [hres] at this; exact this.1
   | ok u s' =>
     rw [hres] at this
     have himg := this.img m r rest hm hr hw
